@@ -145,16 +145,21 @@ Inductive event :=
 
 Definition active_flags (s : tstate) : event := EActive (map t_active (tms s)).
 
-(* one API call made outside uv__run_timers or from inside a callback *)
+Definition valid (s : tstate) (i : nat) : bool := Nat.ltb i (length (tms s)).
+
+(* one API call made outside uv__run_timers or from inside a callback;
+   calls naming a handle that does not exist are ignored (the harness does
+   the same) *)
 Definition api (s : tstate) (o : op) : tstate * list event :=
   match o with
   | OInit => (timer_init s, [])
-  | OStart i cb t r => let '(s', c) := timer_start s i cb t r in (s', [ERet c])
-  | OStop i => (timer_stop s i, [ERet 0])
-  | OAgain i => let '(s', c) := timer_again s i in (s', [ERet c])
-  | OSetRepeat i r => (timer_set_repeat s i r, [])
-  | OClose i => (timer_close s i, [])
-  | ODueIn i => (s, [EDue (timer_due_in s i)])
+  | OStart i cb t r =>
+      if valid s i then let '(s', c) := timer_start s i cb t r in (s', [ERet c]) else (s, [])
+  | OStop i => if valid s i then (timer_stop s i, [ERet 0]) else (s, [])
+  | OAgain i => if valid s i then let '(s', c) := timer_again s i in (s', [ERet c]) else (s, [])
+  | OSetRepeat i r => if valid s i then (timer_set_repeat s i r, []) else (s, [])
+  | OClose i => if valid s i then (timer_close s i, []) else (s, [])
+  | ODueIn i => if valid s i then (s, [EDue (timer_due_in s i)]) else (s, [])
   | ONext => (s, [ENext (next_timeout s)])
   | OAdvance d => (advance s d, [])
   | ORun => (s, [])
